@@ -482,6 +482,10 @@ class TableRun:
         if ok and detail == "dontcare":
             self.skipped = getattr(self, "skipped", 0) + 1
             return
+        if undecided and getattr(self, "bounded_depth", False) and str(undecided).startswith("refinement depth exceeded"):
+            # a table that deliberately follows only the first rounds of an unbounded loop: deeper cases are not followed
+            self.skipped = getattr(self, "skipped", 0) + 1
+            return
         if undecided:
             self.undecided += 1
             if self.first_undecided is None:
